@@ -95,6 +95,11 @@ func NewUniverse(r *rand.Rand, d7 bool) *Universe {
 	absBase := r.IntN(3) > 0
 	if absBase {
 		u.BaseURI = Pick(r, []string{"http://h/d/root.json", "http://h/root.json", "https://h.example/a/b/root.json"})
+		if r.IntN(8) == 0 {
+			// a base with a query - also an EMPTY one ("...?"), which RFC 3986 keeps apart from no query at all and which a
+			// fragment-only reference inherits (5.2.2)
+			u.BaseURI = Pick(r, []string{"http://h/d/root.json?", "http://h/root.json?v=1", "http://h/d/root.json?a=b&c=%2F"})
+		}
 	}
 	nd := []int{0, 1, 1, 2, 2, 3}[r.IntN(6)]
 	if absBase && r.IntN(40) == 0 {
